@@ -155,6 +155,7 @@ void observe_doc(const json& req, Document& doc, json& out, bool returned_normal
 
 // ---- whole-document entry points -------------------------------------------------
 
+static json op_xta(const json& req);
 static json op_xml(const json& req)
 {
     json out;
@@ -182,6 +183,51 @@ static json op_xml(const json& req)
     });
     out["ret"] = ret;
     observe_doc(req, *doc, out, out["exc"].is_null() && ret == 0);
+    return out;
+}
+
+// batch: {"tpl": "....\u0001....\u0001...", "fills": [[a,b],...]} or {"bufs":[...]}
+static json op_xmls(const json& req)
+{
+    json out;
+    json res = json::array();
+    std::vector<std::string> parts;
+    if (req.contains("tpl")) {
+        std::string tpl = req["tpl"];
+        size_t pos = 0, p;
+        while ((p = tpl.find('\x01', pos)) != std::string::npos) {
+            parts.push_back(tpl.substr(pos, p - pos));
+            pos = p + 1;
+        }
+        parts.push_back(tpl.substr(pos));
+    }
+    auto run = [&](const std::string& buf) {
+        json r = req;
+        r.erase("fills");
+        r.erase("bufs");
+        r.erase("tpl");
+        r["buf"] = buf;
+        std::string kind = req.value("kind", "xml");
+        json o = kind == "xta" ? op_xta(r) : op_xml(r);
+        std::string se = take_stderr();
+        if (!se.empty())
+            o["stderr"] = se;
+        res.push_back(o);
+    };
+    if (req.contains("fills")) {
+        for (auto& f : req["fills"]) {
+            std::string buf = parts[0];
+            for (size_t i = 0; i + 1 < parts.size(); ++i) {
+                buf += f.at(i).get<std::string>();
+                buf += parts[i + 1];
+            }
+            run(buf);
+        }
+    } else {
+        for (auto& b : req["bufs"])
+            run(b.get<std::string>());
+    }
+    out["results"] = res;
     return out;
 }
 
@@ -280,6 +326,7 @@ static json one_expr(Document& doc, const std::string& text, bool newxta, int pa
         r["terr"] = dump_errors(doc.get_errors());
         r["twarn"] = dump_errors(doc.get_warnings());
         r["tkind"] = root_type_kind(e);
+        r["tbase"] = (e.empty() || e.get_type().data == nullptr) ? std::string("?") : kind_name(e.get_type().strip().get_kind());
     }
     if (req.value("print", false)) {
         std::string s;
@@ -437,6 +484,8 @@ static json dispatch(const json& req)
         return op_xml(req);
     if (op == "xta")
         return op_xta(req);
+    if (op == "xmls")
+        return op_xmls(req);
     if (op == "exprs")
         return op_exprs(req);
     if (op == "queries")
@@ -474,12 +523,20 @@ int main(int argc, char** argv)
                 utapv::g_stderr_fd = fd;
             }
         }
-        if (std::string(argv[i]) == "--stack-mb") {
+        if (std::string(argv[i]) == "--never") {
             struct rlimit rl;
             getrlimit(RLIMIT_STACK, &rl);
             (void)rl;
         }
     }
+    for (int i = 1; i < argc; ++i)
+        if (std::string(argv[i]) == "--stderr-inherit") {
+            struct stat st;
+            if (fstat(2, &st) == 0 && S_ISREG(st.st_mode)) {
+                utapv::g_stderr_fd = 2;
+                utapv::g_stderr_off = st.st_size;
+            }
+        }
     std::ios::sync_with_stdio(false);
     std::string line;
     while (std::getline(std::cin, line)) {
